@@ -46,7 +46,7 @@ RULE = ('rt*: rows x cols with every residue of rows*cols mod 8 incl. < 8 pixels
         'stacked layouts (2-D/3-D/4-D), BINARY/FRACTIONAL/LABELMAP (sparse and > 255 segment numbers), '
         'max_fractional_value in {1,2,3,100,255}, omit_empty_frames on/off, implicit/explicit/RLE/JPEG-LS, '
         'workers 0 / ThreadPoolExecutor / 2, in-memory + segread + lazy segread, shuffled source positions; '
-        'malformed: every constructor and query guard violated once; pack/frame_at: pydicom packing, '
+        'valid kinds: the model also evaluates its `valid` predicate and its specification (must both be true); malformed: every constructor and query guard violated once; pack/frame_at: pydicom packing, '
         'get_raw_frame/decode_frame/read_frame_raw on hand-made bit-packed images; '
         'non-trivial = at least one non-zero pixel read back (or a refusal); distinct by case hash')
 NOT_EXECUTED = ['JPEG 2000 transfer syntaxes (no openjpeg codec installed)',
@@ -643,6 +643,7 @@ def _seg_case(c):
     out = [nframes, meta, pdata, r_mem, r_file, r_lazy, extras]
     if c['kind'].startswith('rt'):
         out.append(True)      # the model evaluates its specification function next to the read-back
+        out.append(True)      # ... and its `valid` predicate (hypothesis of C01_roundtrip) on this input
     return out
 
 
